@@ -482,6 +482,54 @@ impl Property for C02 {
         }
         ctx.subspace("11 tagged scalars x 2 styles x 4 shapes x 3 layouts x 5 targets", total, true);
 
+        // null-like and empty scalars with an anchor, as value / item / key, used again through an
+        // alias in value, item and key position (an omitted node that carries an anchor is still
+        // the null node; `""` is still the empty string)
+        {
+            let nodes: Vec<Node> = vec![
+                Node::plain(""), // with an anchor: rendered as `&a` alone (an omitted node)
+                Node::plain("~"),
+                Node::plain("null"),
+                Node::plain("Null"),
+                Node::scalar("", Style::Double),
+                Node::scalar("", Style::Single),
+                Node::scalar("~", Style::Double),
+                Node::scalar("null", Style::Single),
+            ];
+            let mut idx = 0u64;
+            let mut total = 0u64;
+            for sc in &nodes {
+                for shape in 0..7 {
+                    for lay in [Layout::default(), Layout { force_flow: true, ..Layout::default() }, Layout { breaks: 1, doc_start: true, ..Layout::default() }] {
+                        for target in TARGETS {
+                            idx += 1;
+                            total += 1;
+                            if !ctx.mine(idx) {
+                                continue;
+                            }
+                            let a = || sc.clone().anchored("a");
+                            let p = Node::plain;
+                            let doc = match shape {
+                                0 => Node::map(false, vec![(p("x"), a()), (p("y"), Node::alias("a")), (p("z"), p("1"))]),
+                                1 => Node::seq(false, vec![a(), Node::alias("a"), p("1")]),
+                                // anchored in key position, used as a value
+                                2 => Node::map(false, vec![(a(), p("1")), (p("y"), Node::alias("a"))]),
+                                // anchored as a value, used as a key
+                                3 => Node::seq(false, vec![a(), Node::map(false, vec![(Node::alias("a"), p("1")), (p("k"), p("2"))])]),
+                                // next to the other null / empty key: no false collision, no missed one
+                                4 => Node::seq(false, vec![a(), Node::map(false, vec![(Node::alias("a"), p("1")), (Node::scalar("", Style::Double), p("2"))])]),
+                                5 => Node::map(false, vec![(a(), p("1")), (p("~"), p("2"))]),
+                                _ => Node::seq(false, vec![Node::seq(false, vec![a()]).anchored("o"), Node::alias("o"), Node::alias("a")]),
+                            };
+                            let c = Case { docs: vec![doc], layout: lay.clone(), target };
+                            ctx.case("anchored-null-likes", &c, true);
+                        }
+                    }
+                }
+            }
+            ctx.subspace("8 null-like / empty scalars x 7 shapes (anchored and aliased in value, item and key position) x 3 layouts x 5 targets", total, true);
+        }
+
         // streams: anchors of one document must not be visible in another
         let sstrat = (
             prop::collection::vec((gdoc::arb_tree(3, 10), prop::collection::vec(any::<u16>(), 8..20)), 2..4),
